@@ -5,6 +5,12 @@ import json
 BASELINE = "cd /repo && go test -mod=mod -json -vet=off -count=1 -timeout 25m ./..."
 
 CHECKS = {
+ "C08": dict(
+  engine="E3 product enumerator",
+  technique="exhaustive enumeration of generated files x all byte ranges x all sample intervals x work-buffer sizes, differential lazy vs in-memory vs file bytes",
+  text="For every generated progressive file (all chunkings of N <= 6 (quick) / 9 (thorough) samples x mdat before/after moov x 32/64-bit mdat header x 1-2 interleaved tracks x lead-in) and small fragmented files, both decode modes are run and compared on Info, sizes and positions; every non-empty (start,size) range inside every mdat payload is read with ReadData and CopyData in both modes and compared with the file slice; every sample interval is copied with CopySampleData for 8 work-buffer sizes; a lazily decoded mdat must encode to exactly its header.",
+  note="Files are tiny (payload <= ~30 bytes) so that ALL ranges can be enumerated; behaviour that depends on payloads >= 4 GiB (automatic switch to largesize) is not reached. Fragmented files are produced by the library's own fragment API.",
+  design="3 C08"),
  "C09": dict(
   engine="E3 product enumerator",
   technique="exhaustive enumeration of all run-length tables up to N samples, every query argument, vs naive per-sample expansion",
